@@ -2,7 +2,14 @@ package main
 
 import (
 	"encoding/json"
+	"fmt"
+	"os"
+	"path/filepath"
+	"strings"
 	"testing"
+	"time"
+
+	"github.com/arm-doe/sts"
 )
 
 func jsonUnmarshal(b []byte, v any) error { return json.Unmarshal(b, v) }
@@ -118,4 +125,52 @@ func minimise(t *testing.T, sc *Scenario, tape []uint32, v Violation) (*Scenario
 		}
 	}
 	return best, nil, zero
+}
+
+// tearTail turns "crash right after this write" into "crash inside this
+// write": the last receive-log line, or the companion's temporary file, is
+// cut short in the crash image. Only applied where nothing after the write
+// has happened yet.
+func (s *Sim) tearTail(newRoot, why string) {
+	var newest string
+	var newestT time.Time
+	pick := func(dir, suffix string) {
+		filepath.Walk(filepath.Join(newRoot, dir), func(p string, info os.FileInfo, err error) error {
+			if err != nil || info.IsDir() || !strings.HasSuffix(p, suffix) {
+				return nil
+			}
+			if newest == "" || info.ModTime().After(newestT) || (info.ModTime().Equal(newestT) && p > newest) {
+				newest, newestT = p, info.ModTime()
+			}
+			return nil
+		})
+	}
+	switch {
+	case strings.HasPrefix(why, "fileutil.writejson.tmp"):
+		pick("stage", ".lck")
+	default:
+		return
+	}
+	if newest == "" {
+		return
+	}
+	info, err := os.Stat(newest)
+	if err != nil || info.Size() < 4 {
+		return
+	}
+	cut := info.Size() - 1 - int64(info.Size()%7)
+	if strings.HasSuffix(newest, ".lck") {
+		cut = info.Size() / 2
+	}
+	os.Truncate(newest, cut)
+	os.Chtimes(newest, info.ModTime(), info.ModTime())
+	s.stat("fault:torn-tail")
+}
+
+func fmtParts(p *sts.Partial) string {
+	var b strings.Builder
+	for _, r := range p.Parts {
+		fmt.Fprintf(&b, "[%d:%d)", r.Beg, r.End)
+	}
+	return b.String()
 }
